@@ -58,7 +58,16 @@ CLAIMS = {
          "specification for every expression and state (resolve_refines_spec), never leaks a binding, innermost binder wins, and "
          "acceptance coincides with declarative well-scopedness (resolve_accepts_iff_scoped). The model is tied to name_resolution.rs "
          "by a correspondence run: the real AST of every corpus and generated program is resolved by the real resolver and by the model, "
-         "and the use→binder maps must be identical; the acceptance oracle runs the whole pipeline.",
+         "and the use→binder maps must be identical; the acceptance oracle runs the whole pipeline. "
+         "Package-level names are part of the model (Globals: constructors per file, definitions, builtins, read off the declarations): a bare "
+         "name is looked up among the local binders first (innermost_wins, local_iff, ctor_iff, unresolved_iff cover locals against "
+         "constructors and functions), every binder occurrence has an id of its own (binder_ids_fresh: also two parameters / pattern "
+         "variables of one name; duplicate_later_wins). resolve_refines_spec holds under conOk (AST lowering, which classifies bare names "
+         "by spelling before resolution, called no locally bound name a constructor); conOk is evaluated on the real AST of every case, "
+         "not proved of lower.rs. Generated programs bind names spelled like constructors of an enum of the same file / another file / an "
+         "imported package, like functions and type names, in all four binder kinds, and repeat names inside one parameter list / pattern; "
+         "the well-typed-by-construction stream must be accepted. Which bare names in PATTERN position are constructor patterns "
+         "(lower.rs: variants / structs declared in the same file) is taken from the real AST, not decided by the property.",
     design_ref="§5 C05",
     note="Trusted: Lean kernel (axioms printed in evidence), harness AST→scope-tree dump and HIR walk, the generator's coverage of scope shapes. "
          "The typer's own scoping (LocalTypeEnv) is exercised only through the acceptance oracle.",
